@@ -113,6 +113,44 @@ def _suitable(fn: ast.FunctionDef) -> bool:
   return True
 
 
+def _is_ctxmgr(fn: ast.FunctionDef) -> bool:
+  """A private @contextlib.contextmanager generator with exactly one `yield`, either a top-level statement of the body or
+  the last statement of the body of a top-level `try ... finally` (no except clauses)."""
+  if not isinstance(fn, ast.FunctionDef):
+    return False
+  decs = [unparse_dec(d) for d in fn.decorator_list]
+  if not any(d.endswith('contextmanager') for d in decs) or any(not (d.endswith('contextmanager') or d in ('staticmethod', 'classmethod')) for d in decs):
+    return False
+  a = fn.args
+  if a.vararg or a.kwarg or a.posonlyargs:
+    return False
+  ys = [x for x in ast.walk(fn) if isinstance(x, (ast.Yield, ast.YieldFrom))]
+  if len(ys) != 1 or isinstance(ys[0], ast.YieldFrom):
+    return False
+  if any(isinstance(x, (ast.Return, ast.Global, ast.Nonlocal, ast.FunctionDef, ast.ClassDef, ast.Await)) and x is not fn for x in ast.walk(fn)):
+    return False
+  body = _strip_doc(fn.body)
+
+  def reach(stmts) -> bool:
+    """the single yield is a statement of `stmts`, or sits (recursively) in the body of a `with` / finally-only `try`."""
+    for st in stmts:
+      if (isinstance(st, ast.Expr) and st.value is ys[0]) or (isinstance(st, ast.Assign) and st.value is ys[0]):
+        return True
+      if isinstance(st, ast.With) and reach(st.body):
+        return True
+      if isinstance(st, ast.Try) and not st.handlers and not st.orelse and reach(st.body):
+        return True
+    return False
+  return reach(body)
+
+
+def unparse_dec(d: ast.AST) -> str:
+  try:
+    return ast.unparse(d)
+  except Exception:  # pragma: no cover
+    return ''
+
+
 def _strip_doc(body: List[ast.stmt]) -> List[ast.stmt]:
   if body and isinstance(body[0], ast.Expr) and isinstance(body[0].value, ast.Constant) and isinstance(body[0].value.value, str):
     return body[1:]
@@ -335,7 +373,8 @@ class _Inliner:
     self.names: Dict[str, int] = {}
 
   def helpers_of_module(self) -> Dict[str, ast.FunctionDef]:
-    return {st.name: st for st in self.tree.body if isinstance(st, ast.FunctionDef) and self._private(st.name) and _suitable(st)}
+    return {st.name: st for st in self.tree.body if isinstance(st, ast.FunctionDef) and self._private(st.name)
+            and (_suitable(st) or _is_ctxmgr(st))}
 
   def _private(self, name: str) -> bool:
     return name.startswith('_') and not name.startswith('__') and name not in self.exclude
@@ -348,7 +387,8 @@ class _Inliner:
         if isinstance(st, ast.FunctionDef):
           self._do_function(st, mod_helpers, {}, None)
         elif isinstance(st, ast.ClassDef):
-          meths = {m.name: m for m in st.body if isinstance(m, ast.FunctionDef) and self._private(m.name) and _suitable(m)}
+          meths = {m.name: m for m in st.body if isinstance(m, ast.FunctionDef) and self._private(m.name)
+                   and (_suitable(m) or _is_ctxmgr(m))}
           props = {}
           for m in st.body:
             if isinstance(m, ast.FunctionDef) and self._private(m.name) and len(m.decorator_list) == 1 \
@@ -391,6 +431,8 @@ class _Inliner:
         if r is None:
           return node
         helper, recv = r
+        if _is_ctxmgr(helper):
+          return node
         expr = _as_expression(helper)
         if expr is None:
           return node
@@ -478,8 +520,8 @@ class _Inliner:
       if isinstance(st, ast.FunctionDef) and st is not fn:
         # nested def (closure): its statements call the same helpers; `self` is the enclosing method's
         st.body = self._do_block(st.body, fn, mod_helpers, meths)
-      rep = self._try_inline(st, fn, mod_helpers, meths)
-      if rep is None:
+      rep = self._try_inline_with(st, fn, mod_helpers, meths) if isinstance(st, ast.With) else self._try_inline(st, fn, mod_helpers, meths)
+      if rep is None and not isinstance(st, ast.With):
         rep = self._hoist(st, fn, mod_helpers, meths)
       if rep is None:
         out.append(st)
@@ -594,6 +636,93 @@ class _Inliner:
     rest = self._try_inline(st2, fn, mod_helpers, meths) or self._hoist(st2, fn, mod_helpers, meths) or [st2]
     return first + rest
 
+  def _try_inline_with(self, st: ast.With, fn, mod_helpers, meths) -> Optional[List[ast.stmt]]:
+    """`with _helper(args) [as v]: BODY` for a private one-yield @contextmanager ->  <before-yield>; BODY; <after-yield>
+    (wrapped in try/finally exactly when the helper wraps its yield in one)."""
+    if len(st.items) != 1 or not isinstance(st.items[0].context_expr, ast.Call):
+      return None
+    call = st.items[0].context_expr
+    r = self._resolve(call, fn, mod_helpers, meths)
+    if r is None or not _is_ctxmgr(r[0]):
+      return None
+    helper, recv = r
+    if any(isinstance(a, ast.Starred) for a in call.args) or any(k.arg is None for k in call.keywords):
+      return None
+    params = [a.arg for a in helper.args.args]
+    bound: Dict[str, ast.AST] = {}
+    pos = list(params)
+    if recv is not None:
+      if not pos:
+        return None
+      bound[pos.pop(0)] = recv
+    if len(call.args) > len(pos):
+      return None
+    order = []
+    for p_, a in zip(pos, call.args):
+      bound[p_] = a
+      order.append(p_)
+    for k in call.keywords:
+      if k.arg in bound or k.arg not in params + [a.arg for a in helper.args.kwonlyargs]:
+        return None
+      bound[k.arg] = k.value
+      order.append(k.arg)
+    dpos = helper.args.args[len(helper.args.args) - len(helper.args.defaults):]
+    for a, d in zip(dpos, helper.args.defaults):
+      bound.setdefault(a.arg, d)
+    if any(p_ not in bound for p_ in params):
+      return None
+    self.uid += 1
+    tag = f'{helper.name.strip("_")}{self.uid}'
+    assigned = _assigned_names(helper)
+    mapping: Dict[str, ast.AST] = {}
+    rename: Dict[str, str] = {}
+    pre: List[ast.stmt] = []
+    for p_ in order + [p_ for p_ in bound if p_ not in order]:
+      e = bound[p_]
+      if (p_ in order and not _simple(e)) or p_ in assigned:
+        nm = f'{p_}__{tag}'
+        pre.append(ast.copy_location(ast.Assign(targets=[ast.Name(id=nm, ctx=ast.Store())], value=copy.deepcopy(e)), st))
+        rename[p_] = nm
+      else:
+        mapping[p_] = e
+    for nm in assigned:
+      if nm not in rename and nm not in bound:
+        rename[nm] = f'{nm}__{tag}'
+    body = [copy.deepcopy(s_) for s_ in _strip_doc(helper.body)]
+    sub = _Subst(mapping, rename)
+    body = [sub.visit(s_) for s_ in body]
+
+    def splice(stmts: List[ast.stmt]) -> Optional[List[ast.stmt]]:
+      for i, s_ in enumerate(stmts):
+        y = None
+        if isinstance(s_, ast.Expr) and isinstance(s_.value, ast.Yield):
+          y = s_.value
+        elif isinstance(s_, ast.Assign) and isinstance(s_.value, ast.Yield):
+          y = s_.value
+        if y is not None:
+          mid: List[ast.stmt] = []
+          if st.items[0].optional_vars is not None:
+            mid.append(ast.copy_location(ast.Assign(targets=[st.items[0].optional_vars],
+                                                    value=y.value if y.value is not None else ast.Constant(value=None)), st))
+          return stmts[:i] + mid + list(st.body) + stmts[i + 1:]
+        if isinstance(s_, (ast.Try, ast.With)) and not getattr(s_, 'handlers', []) \
+            and any(isinstance(x, ast.Yield) for b_ in s_.body for x in ast.walk(b_)):
+          inner = splice(list(s_.body))
+          if inner is None:
+            return None
+          s_.body = inner
+          return stmts
+      return None
+    new = splice(body)
+    if new is None:
+      return None
+    self.count += 1
+    self.names[helper.name] = self.names.get(helper.name, 0) + 1
+    out = pre + new
+    for s_ in out:
+      ast.fix_missing_locations(s_)
+    return out
+
   def _inline_flagged(self, st, mode, body, pre, res, tag, helper) -> List[ast.stmt]:
     """Inlines a helper whose returns sit inside loops / try / with, using an explicit result and a done flag."""
     done = f'done__{tag}'
@@ -650,6 +779,8 @@ class _Inliner:
     if r is None:
       return None
     helper, recv = r
+    if _is_ctxmgr(helper):
+      return None
     if any(isinstance(a, ast.Starred) for a in call.args) or any(k.arg is None for k in call.keywords):
       return None
     params = [a.arg for a in helper.args.args]
